@@ -10,7 +10,6 @@ import (
 	"time"
 
 	"github.com/gobwas/ws"
-	"google.golang.org/genproto/googleapis/rpc/code"
 	"google.golang.org/grpc"
 	"google.golang.org/grpc/codes"
 	"google.golang.org/grpc/metadata"
@@ -293,12 +292,55 @@ type twirpError struct {
 	Meta    map[string]string `json:"meta"`
 }
 
+// twirpCodeName returns the Twirp spelling of a status code
+// (https://twitchtv.github.io/twirp/docs/spec_v7.html#error-codes).
+func twirpCodeName(c codes.Code) string {
+	switch c {
+	case codes.OK:
+		return "ok"
+	case codes.Canceled:
+		return "canceled"
+	case codes.Unknown:
+		return "unknown"
+	case codes.InvalidArgument:
+		return "invalid_argument"
+	case codes.DeadlineExceeded:
+		return "deadline_exceeded"
+	case codes.NotFound:
+		return "not_found"
+	case codes.AlreadyExists:
+		return "already_exists"
+	case codes.PermissionDenied:
+		return "permission_denied"
+	case codes.ResourceExhausted:
+		return "resource_exhausted"
+	case codes.FailedPrecondition:
+		return "failed_precondition"
+	case codes.Aborted:
+		return "aborted"
+	case codes.OutOfRange:
+		return "out_of_range"
+	case codes.Unimplemented:
+		return "unimplemented"
+	case codes.Internal:
+		return "internal"
+	case codes.Unavailable:
+		return "unavailable"
+	case codes.DataLoss:
+		return "dataloss"
+	case codes.Unauthenticated:
+		return "unauthenticated"
+	default:
+		return "internal" // not a status code: answered 500, like HTTPStatusCode
+	}
+}
+
 func (m *Mux) encError(w http.ResponseWriter, r *http.Request, err error) {
 	s, _ := status.FromError(err)
 	if isTwirp := r.Header.Get("Twirp-Version") != ""; isTwirp {
 		accept := "application/json"
 
-		codeStr := strings.ToLower(code.Code_name[int32(s.Code())])
+		codeStr := twirpCodeName(s.Code())
 
 		terr := &twirpError{
 			Code:    codeStr,
